@@ -386,6 +386,10 @@ class Summaries:
         def _(ctx):
             return StructV('std::ops::RangeInclusive', {'start': ctx.args[0], 'end': ctx.args[1]})
 
+        @reg('std::iter::Iterator::enumerate')
+        def _(ctx):
+            return to_iter(ctx, ctx.args[0]).with_op(('enumerate',), ctx.ret_ty)
+
         @reg('std::iter::Iterator::rev')
         def _(ctx):
             return to_iter(ctx, ctx.args[0]).with_op(('rev',), ctx.ret_ty)
@@ -666,7 +670,7 @@ class Summaries:
 
         def apply_ops(ctx, it, results, keep_skips=False):
             """apply adaptor chain to produced elements"""
-            ops = [o for o in it.ops if o[0] in ('cloned', 'map', 'filter', 'flat_map')]
+            ops = [o for o in it.ops if o[0] in ('cloned', 'map', 'filter', 'flat_map', 'enumerate')]
             if not ops:
                 return results
             out = []
@@ -680,6 +684,9 @@ class Summaries:
                     for (s, x) in cur:
                         if op[0] == 'cloned':
                             nxt.append((s, eng.read(s, x.path) if isinstance(x, RefV) else x))
+                        elif op[0] == 'enumerate':
+                            # position unknown here: (some index, element)
+                            nxt.append((s, x if x == ('skip',) else StructV('(usize, T)', {'0': eng.fresh_num(s, 'usize', 0, 2**40, name='idx'), '1': x})))
                         elif op[0] == 'map':
                             for (s2, r) in eng.call_value(s, op[1], [x], ctx.depth, ctx.fr, ctx.bi):
                                 nxt.append((s2, r))
@@ -790,7 +797,7 @@ class Summaries:
                 src.reverse()
             ops = [o for o in ops if o[0] != 'rev']
             for op in ops:
-                if op[0] not in ('cloned', 'map', 'filter', 'skip', 'take', 'step_by'):
+                if op[0] not in ('cloned', 'map', 'filter', 'skip', 'take', 'step_by', 'enumerate'):
                     return None
                 if op[0] in ('skip', 'take', 'step_by') and not (isinstance(op[1], NumV) and op[1].sym is None):
                     return None
@@ -824,6 +831,11 @@ class Summaries:
                                             nn.append((s3, SKIP, c1))
                                     else:
                                         return None
+                            elif op[0] == 'enumerate':
+                                k = c1.get(oi, 0)
+                                c2 = dict(c1)
+                                c2[oi] = k + 1
+                                nn.append((s1, StructV('(usize, T)', {'0': NumV(None, k, 'usize'), '1': x1}), c2))
                             else:
                                 k = c1.get(oi, 0)
                                 c2 = dict(c1)
@@ -1208,6 +1220,14 @@ class Summaries:
             """exact positional iteration for constant sources (static initialisers only)"""
             st = ctx.st
             p = pos if isinstance(pos, int) else 0
+            if any(o[0] in ('enumerate', 'step_by', 'skip', 'take', 'rev') for o in it.ops):
+                # adaptors that depend on the position: the whole sequence is computed, then indexed
+                ex = exact_items(ctx, st, IterV(it.kind, it.ty, it.args, it.ops, None))
+                if ex is not None and len(ex) == 1 and ex[0][0] is st:
+                    st.vn[('iterpos', it.iid)] = p + 1
+                    items = ex[0][1]
+                    return opt_result(ctx, [(st, items[p] if p < len(items) else None)])
+                return None
             if it.kind == 'range':
                 lo, hi, incl = it.args
                 if isinstance(lo, NumV) and isinstance(hi, NumV) and lo.sym is None and hi.sym is None:
